@@ -177,6 +177,8 @@ def main(chk):
         for m in ("ContainersInd.tla", "ContainersProof.tla"):
             shutil.copy(os.path.join(tlc.SPECS, m), pdir)
         pr = subprocess.run([tlapm, "--threads", "4", "--cleanfp", "ContainersProof.tla"], capture_output=True, text=True, timeout=1500, cwd=pdir)
+        if pr.returncode != 0:      # a loaded machine can make a back end time out: once more with longer time limits
+            pr = subprocess.run([tlapm, "--threads", "4", "--cleanfp", "--stretch", "8", "ContainersProof.tla"], capture_output=True, text=True, timeout=3000, cwd=pdir)
         out = pr.stdout + pr.stderr
         m = re.search(r"All (\d+) obligations? proved", out)
         if pr.returncode != 0 or not m:
